@@ -32,7 +32,15 @@ class EncoderModel:
         self.frames = one(lambda f: f["t"]["s"].startswith("std::vector<std::vector<unsigned char"), "frame list")
         self.template = one(lambda f: f["t"]["s"].startswith("std::vector<unsigned char"), "frame template")
         self.msgtype = one(lambda f: f["t"].get("enum") == CH + "::MessageType", "remembered message type")
-        self.streamId = one(lambda f: f["t"].get("k") == "int" and f["t"].get("bits") == 8, "stream id")
+        def returned_by(getter, what):
+            """the member the public getter returns (a role by meaning: further members of the same type do not disturb it)"""
+            g = fb.fn_opt(ENC + "::" + getter)
+            rets = [strip_all_casts(r["e"]).get("field") for r in (g.returns() if g is not None else []) if isinstance(r.get("e"), dict)]
+            if len(rets) != 1 or rets[0] not in {f["qname"] for f in F}:
+                raise Broken("Encoder: cannot bind role '%s' (%s() does not return one member)" % (what, getter))
+            return rets[0]
+        u8 = [f for f in F if f["t"].get("k") == "int" and f["t"].get("bits") == 8]
+        self.streamId = u8[0]["qname"] if len(u8) == 1 else returned_by("getStreamId", "stream id")
         self.methods = [f for f in fb.all_functions() if f.rec == ENC]
         if len(self.methods) < 15:
             raise Broken("Encoder: only %d method definitions found" % len(self.methods))
@@ -718,6 +726,70 @@ def rule_fit_decided_on_fresh_frame(res, rid, m, placement=False):
     return n
 
 
+def rule_puts_are_flushed(res, rid, m):
+    """Whatever was put is emitted: in every encode overload, a return that does not hand out the finisher's result (or another
+    overload's) is not reachable from a putPacket call — otherwise frames that were opened, and the sequence counters they took,
+    are dropped (the next emitted frame is not previous + 1 and getSequenceCounter() reports a frame nobody received)."""
+    n = 0
+
+    def hands_out(g, depth=2):
+        """every return of helper g hands out the finisher's result (g owns the put loop and the flush)"""
+        rets = [r for r in g.returns() if r.get("e") is not None]
+        if not rets or depth < 0:
+            return False
+        for r in rets:
+            cs = [x for x in walk(facts.expand(g, r["e"])) if x.get("k") == "call"]
+            if not any(m.calls_fn(x, m.finisher) or (m.fb.resolve_call(x) is not None and m.fb.resolve_call(x).rec == ENC and
+                                                     m.fb.resolve_call(x) is not g and m.fb.resolve_call(x).cfg_raw and hands_out(m.fb.resolve_call(x), depth - 1)) for x in cs):
+                return False
+        return True
+    helpers = []
+    for e in m.encodes:
+        for c in e.calls():
+            g = m.fb.resolve_call(c)
+            if g is not None and g.rec == ENC and g not in m.encodes and g is not m.finisher and g.cfg_raw and g not in helpers and \
+                    any(m.calls_fn(x, m.putPacket) for x in g.calls()) and g is not m.putPacket:
+                helpers.append(g)
+    for e in list(m.encodes) + helpers:
+        if not e.cfg_raw:
+            continue
+        tag = encode_tag(e) if e in m.encodes else e.name.split("::")[-1]
+        cfg = e.cfg
+        puts = [c for c in e.calls() if m.calls_fn(c, m.putPacket) or
+                (m.fb.resolve_call(c) is not None and m.fb.resolve_call(c).rec == ENC and m.fb.resolve_call(c) not in m.encodes and
+                 m.fb.resolve_call(c) is not m.finisher and any(m.calls_fn(x, m.putPacket) for x in m.fb.resolve_call(c).calls()))]
+        if not puts:
+            continue
+        pblocks = {cfg.block_for(c) for c in puts}
+        reach = set()
+        st = list(pblocks)
+        while st:
+            b = st.pop()
+            for s2 in cfg.succ[b]:
+                if s2 is not None and s2 not in reach:
+                    reach.add(s2)
+                    st.append(s2)
+        for r in e.returns():
+            if r.get("e") is None:
+                continue
+            calls = [x for x in walk(facts.expand(e, r["e"])) if x.get("k") == "call"]
+            flushed = any(m.calls_fn(x, m.finisher) or (m.fb.resolve_call(x) in m.encodes) or
+                          (m.fb.resolve_call(x) in helpers and hands_out(m.fb.resolve_call(x))) for x in calls)
+            if flushed:
+                n += 1
+                continue
+            rb = cfg.block_for(r)
+            after_put = rb in reach or (rb in pblocks and any(cfg.pos_of.get(c["id"], 10 ** 9) < cfg.pos_of.get(r["id"], -1) for c in puts if cfg.block_for(c) == rb))
+            n += 1
+            res.check(not after_put, rid, "encode(%s):return@%s" % (tag, (r.get("loc") or "").split(":", 1)[-1]), r.get("loc"),
+                      "a return without the finisher's frames is only possible before anything was put",
+                      "encode can return `%s` after packets of the batch were put: the frames already opened are never handed out, although their sequence "
+                      "counters are taken" % canon(r["e"])[:60])
+    if n == 0:
+        raise Broken("no encode overload with a return statement found")
+    return n
+
+
 def rule_batch_order(res, rid, m):
     """C08-R5: encode walks the range once, forwards, one putPacket per element; frames are only appended."""
     for e0 in m.encodes:
@@ -1383,7 +1455,7 @@ def header_landing(m):
     return "inplace", raw["args"][0], raw, None
 
 
-def rule_header_fully_stamped(res, rid, m):
+def rule_header_fully_stamped(res, rid, m, only=None):
     """C08-R6: wherever a packet's raw message header is written into a frame, the
     segment type and the payload length of that header are set afterwards on every path
     (the packet's own flags may carry stale segment bits, e.g. after reassembly)."""
@@ -1402,6 +1474,8 @@ def rule_header_fully_stamped(res, rid, m):
             ci = [i for i, x in enumerate(after) if x.get("id") == commit["id"]]
             after = after[:ci[0]] if ci else []
         for setter, what in ((MH + "::setSegmentType", "segment type"), (MH + "::setPayloadLength", "payload length")):
+            if only is not None and what not in only:
+                continue
             ok = any(x.get("k") == "call" and callee_name(x) == setter for x in after)
             res.check(ok, rid, "header-writer:%s" % what.replace(" ", "-"), els[raws[-1]].get("loc"),
                       "%s is set after the raw header copy on every path" % what,
